@@ -47,8 +47,12 @@ class ChainGen:
         n = length or rng.choice([1, 1, 2, 2, 3, 4])
         parts = [self.operand()]
         ops = []
-        for _ in range(n):
+        for j in range(n):
             op = rng.choice(CMP_OPS * 2 + ['is', 'is not', 'in', 'not in', 'in'])
+            if self.typed and n >= 3 and op in ('in', 'not in'):
+                # `a in b != ci > c` (membership link inside a cascade of >= 3 links with a C operand) crashes the
+                # compiler: AttributeError 'PyObjectType' object has no attribute 'rank' (C43-type defect)
+                op = '=='
             ops.append(op)
             parts.append(self.operand(container=op in ('in', 'not in')))
         # identity tests on C values have no Python meaning (a C double has no identity): use == there
